@@ -2,17 +2,18 @@ SPECIFICATION Spec
 CONSTANTS
   ArgsOf <- MCArgs
   InitHeaps <- MCInit
-  MaxDepth = 2
-  Breaks <- BreaksQ
-  Degs <- DegsQ
-  MaxNpts = 5
-  CtorLen = 6
+  MaxDepth = 1
+  Breaks <- BreaksT
+  Degs <- DegsT
+  MaxNpts = 8
+  CtorLen = 2
   Rich = FALSE
-  Acts = {}
+  Acts = {"KvOr", "KvAnd", "KvIOr", "KvIAnd"}
 INVARIANT WellFormed
 PROPERTY FailedIsNoOp
 PROPERTY UnionProps
-
+PROPERTY UnionIsCoarsest
+PROPERTY InterProps
 ACTION_CONSTRAINT Log
 VIEW View
 CHECK_DEADLOCK FALSE
